@@ -331,6 +331,8 @@ func checkC16(c *Ctx) {
 		checkPolicyClauses(c, "C16.R3", views[fn])
 	}
 	checkAddressClassPredicate(c, "C16.R3")
+	c.Rule("C16.R7", "canonical addresses: every address that reaches a CIDR prefix match — from the resolver or from an IP literal in the URL — is the result of Addr.Unmap() or sits on an edge where it is known not to be IPv4(-mapped); followed through helper results, parameters, merges and slice elements")
+	checkCanonicalAddresses(c, "C16.R7")
 	checkPolicyWiring(c, "C16.R4")
 	checkSentinelPreserved(c, "C16.R5", pm)
 	checkErrChainPreserved(c, "C16.R5")
@@ -369,7 +371,7 @@ func checkPolicyClauses(c *Ctx, rule string, fn *ssa.Function) {
 	}
 	for _, g := range p.FuncsInPkg("dispatcher") {
 		ps, rs := g.Signature.Params(), g.Signature.Results()
-		if ps.Len() == 1 && rs.Len() == 1 && ps.At(0).Type().String() == "net.IP" && types.Identical(rs.At(0).Type(), types.Typ[types.Bool]) {
+		if ps.Len() == 1 && rs.Len() == 1 && isIPAddrType(ps.At(0).Type()) && types.Identical(rs.At(0).Type(), types.Typ[types.Bool]) {
 			ipPred = g.Name()
 		}
 	}
@@ -556,12 +558,12 @@ func checkAddressClassPredicate(c *Ctx, rule string) {
 	// predicate: func(net.IP) bool in dispatcher calling the net.IP class methods
 	for _, fn := range p.FuncsInPkg("dispatcher") {
 		ps, rs := fn.Signature.Params(), fn.Signature.Results()
-		if ps.Len() != 1 || rs.Len() != 1 || ps.At(0).Type().String() != "net.IP" || !types.Identical(rs.At(0).Type(), types.Typ[types.Bool]) {
+		if ps.Len() != 1 || rs.Len() != 1 || !isIPAddrType(ps.At(0).Type()) || !types.Identical(rs.At(0).Type(), types.Typ[types.Bool]) {
 			continue
 		}
 		classCalls := allCalls(fn, func(ci ssa.CallInstruction) bool {
 			f := ci.Common().StaticCallee()
-			return f != nil && f.Pkg != nil && f.Pkg.Pkg.Path() == "net" && strings.HasPrefix(f.Name(), "Is")
+			return f != nil && f.Pkg != nil && (f.Pkg.Pkg.Path() == "net" || f.Pkg.Pkg.Path() == "net/netip") && strings.HasPrefix(f.Name(), "Is") && f.Name() != "IsValid"
 		})
 		if len(classCalls) < 3 {
 			continue
@@ -573,19 +575,21 @@ func checkAddressClassPredicate(c *Ctx, rule string) {
 				continue
 			}
 			for _, m := range wantFalse {
-				calls := allCalls(fn, func(ci ssa.CallInstruction) bool { return calleeIs(ci, "net", "IP", m) })
+				calls := allCalls(fn, func(ci ssa.CallInstruction) bool { return calleeIs(ci, "net", "IP", m) || calleeIs(ci, "net/netip", "Addr", m) })
 				_, failE, _ := GuardEdges(fn, calls, BoolTrue)
 				okp, _ := p.MustPass(fn, r, failE)
 				c.Check(okp && len(failE) > 0, rule, name+":true-only-if-not-"+m, p.InstrPos(r), "true only behind "+m+"()==false", "an address can be accepted without "+m+"() having been false")
 			}
-			calls := allCalls(fn, func(ci ssa.CallInstruction) bool { return calleeIs(ci, "net", "IP", "IsGlobalUnicast") })
+			calls := allCalls(fn, func(ci ssa.CallInstruction) bool {
+				return calleeIs(ci, "net", "IP", "IsGlobalUnicast") || calleeIs(ci, "net/netip", "Addr", "IsGlobalUnicast")
+			})
 			okE, _, _ := GuardEdges(fn, calls, BoolTrue)
 			okp, _ := p.MustPass(fn, r, okE)
 			c.Check(okp && len(okE) > 0, rule, name+":true-only-if-IsGlobalUnicast", p.InstrPos(r), "true only behind IsGlobalUnicast()==true", "an address can be accepted without being global unicast")
 		}
 		return
 	}
-	c.Fail(rule, "dispatcher:address-class-predicate", "", "no func(net.IP) bool address-class predicate found")
+	c.Fail(rule, "dispatcher:address-class-predicate", "", "no func(net.IP) bool / func(netip.Addr) bool address-class predicate found")
 }
 
 func checkPolicyWiring(c *Ctx, rule string) {
@@ -996,4 +1000,10 @@ func variadicTailCarriesNoError(p *Program, x *ssa.Call) bool {
 		}
 	}
 	return true
+}
+
+// isIPAddrType: net.IP or netip.Addr.
+func isIPAddrType(t types.Type) bool {
+	s := t.String()
+	return s == "net.IP" || s == "net/netip.Addr"
 }
